@@ -99,6 +99,16 @@ def run(rep, tier, root=None):
     stores = {s[1]: s for s in I.store_log if s[0] == f.fq}
     loops = [l for l in I.loop_log if l[0] == f.fq]
     if len(rets) != 1 or len(loops) != 1 or len(stores) < 2:
+        # not the loop-over-slabs form.  One vectorised form can be decided: running sums cut at slab starts
+        # (numpy.add.reduceat) are not slab sums - an empty slab returns the element at its start index instead of 0, so that
+        # layer is counted twice; every profile with a gap between layers (irregular heights) is affected
+        red = [a for c_, v_ in rets for a in (find_atoms(v_, lambda t: isinstance(t, Fn) and t.name.endswith("reduceat")) if v_ is not None else [])]
+        if red:
+            rep.violation("E1m.moment-conserved", f.fq + ": slab strengths by numpy.add.reduceat",
+                          "the slab sums are taken with numpy.add.reduceat(%s): for an empty slab (two equal start indices) reduceat returns "
+                          "the single element at that index rather than 0, so a layer is counted in two slabs and the total Cn2 and both "
+                          "5/3 moments are no longer conserved for profiles with a gap" % nf(red[0].args[0], 60), f.where())
+            return
         rep.unknown("E1.structure", f.fq, "expected one path, one slab loop, >= 2 stores", f.where())
         return
     loopvar, rng = loops[0][2], loops[0][3]
@@ -241,6 +251,57 @@ def run(rep, tier, root=None):
                     body_ok = all(same_value(Rat.atom(x), Rat.atom(src)) for x in hs)
                     if not body_ok:
                         why = "heights and strengths are computed from different groupings"
+    # ---- E5 the restart loop keeps the best grouping seen: (cost, grouping) are replaced together, and only by a better pair
+    lps = [l for l in Ig.loop_log if l[0] == og.fq and isinstance(l[3], RangeVal) and same_value(l[3].hi, Rat.sym("R", ("int",)))]
+    if not lps:
+        rep.unknown("E5.best-of-restarts", og.fq, "cannot find the restart loop `for ... in range(R)`", og.where())
+    else:
+        okp, why5 = True, ""
+        seen_t = set()
+        loop_ln = lps[0][1]
+
+        def entry_val(name):
+            vals = [e_[3] for e_ in Ig.assign_log if e_[0] == og.fq and e_[1] == name and e_[2] < loop_ln]
+            return vals[-1] if vals else None
+        e_gb, e_gam = entry_val("G_best"), entry_val("gamma_best")
+
+        def is_new(v, entry):
+            """the value comes from this restart: not the carried one, not the one the loop was entered with"""
+            if not isinstance(v, Rat):
+                return False
+            if any(isinstance(x_, Fn) and x_.name == "?carried" for x_ in v.atoms(True)):
+                return False
+            if entry is not None and same_value(v, entry):
+                return False
+            return bool(find_atoms(v, lambda t: isinstance(t, Fn) and t.name.endswith(":_optGroupingMinimization")))
+        for (_fq, ln, tv_, it_, env_, conds_, cnf_) in lps:
+            gb, gam = env_.get("G_best"), env_.get("gamma_best")
+            tests = [(v_, t_) for v_, t_ in cnf_ if isinstance(v_, Rat) and isinstance(v_.single_atom(), Fn) and v_.single_atom().name == "cmp"]
+            calls_ = find_atoms(gb, lambda t: isinstance(t, Fn) and t.name.endswith(":_optGroupingMinimization")) if isinstance(gb, Rat) else []
+            carried_g = isinstance(gb, Rat) and any(isinstance(a_, Fn) and a_.name == "?carried" for a_ in gb.atoms(True))
+            if len(tests) != 1:
+                okp, why5 = False, "the update of the best pair is not guarded by one comparison of the new cost with the best cost (path %s)" % list(conds_)
+                break
+            cmp_, truth = tests[0]
+            a_ = cmp_.single_atom()
+            # normalise to  new < best
+            op, l_, r_ = a_.args
+            new_is_left = bool(find_atoms(l_, lambda t: isinstance(t, Fn) and t.name.endswith(":_optGroupingMinimization")))
+            better = (op in ("<", "<=") and new_is_left) or (op in (">", ">=") and not new_is_left)
+            took_new = truth if better else not truth
+            seen_t.add(took_new)
+            gam_new = is_new(gam, e_gam)
+            gb_new = is_new(gb, e_gb)
+            if took_new and not (gb_new and gam_new):
+                okp, why5 = False, "when the new cost is better, (G_best, gamma_best) become (%s, %s)" % (nf(gb, 60), nf(gam, 60))
+                break
+            if not took_new and (gb_new or gam_new):
+                okp, why5 = False, "when the new cost is NOT better, (G_best, gamma_best) still become (%s, %s): the best grouping so far is lost" % (nf(gb, 60), nf(gam, 60))
+                break
+        if okp and seen_t != {True, False}:
+            okp, why5 = False, "the restart loop does not distinguish a better from a worse restart (paths: %s)" % sorted(seen_t)
+        rep.check(okp, "E5.best-of-restarts", og.fq + ": a restart replaces (cost, grouping) together and only when its cost is lower",
+                  why5, og.where())
     rep.check(body_ok, "E2.group-sums", og.fq + ": strength of group == p[group].sum() over the groups of the returned heights",
               "optimal_grouping does not return the plain sum of p over each group: " + why, og.where())
     # ---- E3 no state survives a call (random restarts may use NumPy's global generator, which the property allows)
